@@ -776,7 +776,7 @@ class Interp:
             if a is None or b is None:
                 return _NOMERGE
             from .strings import SStr
-            if isinstance(a, SStr) or isinstance(b, SStr):
+            if isinstance(a, (SStr, str, bytes)) or isinstance(b, (SStr, str, bytes)):
                 return _NOMERGE
             return b_ite(c, a, b)
         except (Unsupported, z3.Z3Exception, TypeError):
@@ -894,8 +894,18 @@ class Interp:
                 fr.env[t.id] = v
         elif isinstance(t, (ast.Tuple, ast.List)):
             items = self.iterate(v)
-            if any(isinstance(e, ast.Starred) for e in t.elts):
-                raise Unsupported("starred assignment")
+            stars = [k for k, e in enumerate(t.elts) if isinstance(e, ast.Starred)]
+            if stars:
+                k = stars[0]
+                after = len(t.elts) - k - 1
+                if len(items) < len(t.elts) - 1:
+                    raise PyRaise("ValueError", "not enough values to unpack")
+                for e, x in zip(t.elts[:k], items[:k]):
+                    self.assign(e, x, fr)
+                self.assign(t.elts[k].value, list(items[k:len(items) - after]), fr)
+                for e, x in zip(t.elts[k + 1:], items[len(items) - after:] if after else []):
+                    self.assign(e, x, fr)
+                return
             if len(items) != len(t.elts):
                 raise PyRaise("ValueError", "unpack")
             for e, x in zip(t.elts, items):
@@ -1027,6 +1037,9 @@ class Interp:
         if isinstance(e.op, ast.Not):
             return b_not(self.truth(v))
         if isinstance(e.op, ast.USub):
+            from .libmodels import InfVal
+            if isinstance(v, InfVal):
+                return InfVal(-v.sign)
             if isinstance(v, NDArr):
                 return NDArr(elementwise(lambda x: num_binop("-", 0, x), v), v.kind)
             return num_binop("-", 0, v) if not (is_sym(v) and z3.is_real(v)) else -v
